@@ -233,11 +233,14 @@ CHECKS['C05'] = dict(
          'dispatch loop started at the boundary computes exactly tokenize_block of the remaining lines alone with all '
          'line numbers (every depth) shifted by the number of preceding lines - no reader looks at or steps back into '
          'earlier lines (BlockCode back-off, Footnote hand-back, every backstep, List.read anchor reset), for complete '
-         'lines. Partial: for A without a top-level list whose last block is closed, parsing A + empty line + anything '
-         'reaches the boundary with A\'s entries and state; hence blockPhase(A ++ ["\\n"] ++ B) = A\'s entries ++ B\'s '
-         'entries shifted by |A|+1 when A defines no references. The general case (lists in A) is explored on the '
-         'implementation by the metamorphic comparison of Document(A), Document(B), Document(A + blank + B) with line '
-         'numbers. Model tied to the code by scanner and block-buffer correspondence on A, B and the concatenations.',
+         'lines. Prefix half, as the property states it (Props/C05_Lists.lean): for A whose last block is closed, parsing A '
+         '+ empty line + anything reaches the boundary with A\'s entries and state; hence blockPhase(A ++ ["\\n"] ++ B) = '
+         'A\'s entries ++ B\'s entries shifted by |A|+1 when A defines no references - lists anywhere in A included. '
+         '(Proving this exposed a genuine defect: List.read read the item behind a marker of another type before '
+         'discarding it, which could register a definition from B; repaired in /repo, the model follows the repaired '
+         'code; the exploration now contains the input family that exhibits it.) The implementation is explored by the '
+         'metamorphic comparison of Document(A), Document(B), Document(A + blank + B) with line numbers and '
+         'definitions. Model tied to the code by scanner and block-buffer correspondence on A, B and the concatenations.',
     note='Trusted: Lean kernel (axioms propext/Classical.choice/Quot.sound at most); correspondence harness; exporter. '
          'Class-level scratch is modelled as recomputed from the line start() saw (checked by correspondence on '
          'concatenated documents, not proved about Python attribute semantics).',
